@@ -15,7 +15,7 @@ EXTENDS Stats, TLC, Json
 
 CONSTANTS Family,   \* "met" | "merge" | "opm" | "mls" | "sm" | "pm" | "exp"
           D,        \* program length
-          Wide      \* TRUE: the larger alphabets (thorough tier)
+          Wide      \* "std"; "wide": the larger alphabets; "core": the smaller ones (for the deepest programs)
 VARIABLES hist,
           g     \* ghost (met), in unbounded naturals: [pn, pm] entries / bytes put in, [nn, nm] entries / bytes taken
                 \* out since the last reset, cl = some prefix took out more than was in, or held more than usize::MAX
@@ -41,15 +41,18 @@ Dhalf  == Dur(<<2036, 2337, 92>>, 854775808)       \* 2^63 ns
 DmaxD  == Dur(BnU64Max, 999999999)                 \* Duration::MAX
 
 \* ---- alphabets --------------------------------------------------------------------------
-OpsMet ==
-  {[op |-> "get", hit |-> TRUE, d |-> Dms], [op |-> "get", hit |-> FALSE, d |-> Dus], [op |-> "get", hit |-> TRUE, d |-> Dus1],
-   [op |-> "get", hit |-> FALSE, d |-> Dq], [op |-> "get", hit |-> TRUE, d |-> Dq1], [op |-> "get", hit |-> TRUE, d |-> DmaxD],
+CoreMet ==
+  {[op |-> "get", hit |-> TRUE, d |-> Dms], [op |-> "get", hit |-> FALSE, d |-> Dq], [op |-> "get", hit |-> TRUE, d |-> Dq1],
    [op |-> "put", n |-> <<1>>, d |-> Dms], [op |-> "put", n |-> Bn2p52, d |-> Dms], [op |-> "put", n |-> Max1, d |-> D0],
    [op |-> "put", n |-> BnU64Max, d |-> DmaxD],
-   [op |-> "rem", n |-> <<1>>], [op |-> "rem", n |-> BnU64Max], [op |-> "evi", n |-> <<1>>], [op |-> "exp", n |-> Bn2p52],
-   [op |-> "batch", ops |-> <<<<TRUE, Dms>>, <<FALSE, Dq>>>>], [op |-> "batch", ops |-> <<>>],
-   [op |-> "reset"]} \cup
-  (IF Wide THEN {[op |-> "get", hit |-> FALSE, d |-> Dhalf], [op |-> "put", n |-> Bn2p20, d |-> Dus1], [op |-> "evi", n |-> Bn2p20]} ELSE {})
+   [op |-> "rem", n |-> <<1>>], [op |-> "rem", n |-> BnU64Max], [op |-> "exp", n |-> Bn2p52],
+   [op |-> "batch", ops |-> <<<<TRUE, Dms>>, <<FALSE, Dq>>>>], [op |-> "reset"]}
+OpsMet ==
+  IF Wide = "core" THEN CoreMet ELSE
+  CoreMet \cup
+  {[op |-> "get", hit |-> FALSE, d |-> Dus], [op |-> "get", hit |-> TRUE, d |-> Dus1], [op |-> "get", hit |-> TRUE, d |-> DmaxD],
+   [op |-> "evi", n |-> <<1>>], [op |-> "batch", ops |-> <<>>]} \cup
+  (IF Wide = "wide" THEN {[op |-> "get", hit |-> FALSE, d |-> Dhalf], [op |-> "put", n |-> Bn2p20, d |-> Dus1], [op |-> "evi", n |-> Bn2p20]} ELSE {})
 
 Prof(ge, h, mi, p, r, ev, ex, nn, me, mx, ag, ap, cr) ==
   [gets |-> ge, hits |-> h, misses |-> mi, puts |-> p, rems |-> r, evis |-> ev, exps |-> ex, n |-> nn, mem |-> me, max |-> mx,
@@ -59,7 +62,7 @@ PSmall == Prof(<<10>>, <<7>>, <<3>>, <<5>>, <<1>>, <<1>>, Z, <<3>>, <<3000>>, <<
 PBig   == Prof(Max1, Max1, Z, <<1>>, Z, Z, Z, BnU64Max, Max1, BnU64Max, Dur(<<>>, 1), D1s, <<2000>>)
 PSlow  == Prof(B2p40, B2p40, Z, Bn2p32, <<2>>, Z, <<1>>, <<7>>, Bn2p20, Bn2p52, D10s, Dms, <<500>>)
 PExt   == Prof(<<1>>, Z, <<1>>, <<1>>, Z, Z, Z, <<1>>, <<1>>, <<1>>, DmaxD, Dq1, <<1500>>)
-Profiles == IF Wide THEN {PZero, PSmall, PBig, PSlow, PExt} ELSE {PSmall, PBig, PSlow, PExt}
+Profiles == IF Wide = "wide" THEN {PZero, PSmall, PBig, PSlow, PExt} ELSE {PSmall, PBig, PSlow, PExt}
 OpsMerge == {[op |-> "merge", a |-> p[1], b |-> p[2]] : p \in {<<0, 1>>, <<1, 0>>, <<0, 2>>, <<2, 0>>, <<1, 2>>, <<2, 1>>}}
 
 OpsOpm ==
@@ -67,22 +70,26 @@ OpsOpm ==
   {[op |-> "set_count", c |-> c] : c \in {Z, <<1>>, <<3>>, BnU32Max, Bn2p32, B2p32p2, BnU64Max}}
 
 OpsMls ==
-  {[op |-> "update", i |-> i, st |-> p] : i \in 0..2, p \in (IF Wide THEN {PSmall, PSlow, PExt} ELSE {PSmall, PSlow})} \cup
+  {[op |-> "update", i |-> i, st |-> p] : i \in 0..2, p \in (IF Wide = "wide" THEN {PSmall, PSlow, PExt} ELSE {PSmall, PSlow})} \cup
   {[op |-> "promo", f |-> 0, t |-> 1], [op |-> "promo", f |-> 1, t |-> 0]} \cup
-  (IF Wide THEN {[op |-> "promo", f |-> 2, t |-> 2]} ELSE {})
+  (IF Wide = "wide" THEN {[op |-> "promo", f |-> 2, t |-> 2]} ELSE {})
 
-OpsSm ==
-  {[op |-> "dl", b |-> <<1024>>, d |-> d] : d \in {D0, D100ms, D1s, D1999, D2s}} \cup
+CoreSm ==
+  {[op |-> "dl", b |-> <<1024>>, d |-> d] : d \in {D100ms, D1s, D1999}} \cup
   {[op |-> "dl", b |-> BnU64Max, d |-> D1s], [op |-> "dl", b |-> BnU64Max, d |-> Dus]} \cup
-  {[op |-> "hit", c |-> "a"], [op |-> "miss", c |-> "a"], [op |-> "evict", c |-> "a"], [op |-> "hit", c |-> "b"],
-   [op |-> "size", c |-> "a", v |-> <<5>>], [op |-> "size", c |-> "a", v |-> BnU64Max],
-   [op |-> "up", v |-> <<512>>], [op |-> "up", v |-> Z]}
+  {[op |-> "hit", c |-> "a"], [op |-> "miss", c |-> "a"], [op |-> "hit", c |-> "b"],
+   [op |-> "size", c |-> "a", v |-> <<5>>], [op |-> "up", v |-> <<512>>], [op |-> "up", v |-> Z]}
+OpsSm ==
+  IF Wide = "core" THEN CoreSm ELSE
+  CoreSm \cup
+  {[op |-> "dl", b |-> <<1024>>, d |-> D0], [op |-> "dl", b |-> <<1024>>, d |-> D2s],
+   [op |-> "evict", c |-> "a"], [op |-> "size", c |-> "a", v |-> BnU64Max]}
 
 OpsPm ==
   {[op |-> "succ", v |-> <<1>>], [op |-> "succ", v |-> BnU64Max], [op |-> "fail", v |-> <<1>>], [op |-> "fail", v |-> BnU64Max],
    [op |-> "rt", d |-> Dms], [op |-> "rt", d |-> D1s], [op |-> "rt", d |-> DmaxD], [op |-> "rt", d |-> D2ms, times |-> 1000],
    [op |-> "rt", d |-> Dms, times |-> 10], [op |-> "rt", d |-> D1s, times |-> 10], [op |-> "rt", d |-> D10s, times |-> 10]} \cup
-  (IF Wide THEN {[op |-> "rt", d |-> D10s, times |-> 50], [op |-> "succ", v |-> <<19>>]} ELSE {})
+  (IF Wide = "wide" THEN {[op |-> "rt", d |-> D10s, times |-> 50], [op |-> "succ", v |-> <<19>>]} ELSE {})
 
 OpsExp ==
   {[op |-> "succ", v |-> <<7>>], [op |-> "fail", v |-> <<2>>], [op |-> "act", v |-> <<3>>], [op |-> "brk_a", v |-> <<1>>],
